@@ -291,7 +291,8 @@ Section Lex.
       cbn [consume_comment]. rewrite Hs.
       assert (Hlen : String.length c' < fuel).
       { assert (String.length (String a c) = String.length (lit ++ c')) by congruence.
-        rewrite length_app_s in H. simpl in H, Hlt. lia. }
+        pose proof (scan_lit_nonempty _ _ _ _ _ Hs H2) as Hl.
+        rewrite length_app_s in H. simpl in H, Hlt. destruct lit; [congruence|simpl in H; lia]. }
       destruct tok; try congruence;
         (rewrite (IHfuel c' (acc ++ lit) k Hlen Hok); rewrite app_assoc_s; rewrite <- Heq; reflexivity).
   Qed.
